@@ -133,6 +133,22 @@ CLAIMED = {
             'Generated scripts of schedule / advance / clear steps over up to 12 events (delays 1-200 ms, repeat flags, callback result scripts); the clock is virtual, the harness waits for the '
             'timer thread to go round its loop, then compares what fired - and when - with a model: nothing early, due order, repeats one interval after each run until false, nothing after clear.',
             'Equal due times may fire in either order; the timer thread polls, so real-time latency is not part of the claim.', '4/C31 and 10.7'),
+    'C13': ('E1', 'exploration', 'property-based testing over generated programs (Hypothesis): schema model -> XML -> f8c -> C++ compiler -> dlopen; metadata vs the generator\'s model, messages vs the reference codec',
+            'Generated schemas (every field type of the compiler\'s table except the two unimplemented TZ types, set/range realms, Length/data pairs, nested and reused components and groups, '
+            'small and 150-300 field schemas, with and without -f) are compiled by the working tree\'s f8c; the generated code is compiled under ASan/UBSan and loaded; the field table, realms, '
+            'message table and every message/group trait list (members, order, mandatory flags after component expansion, group structure) are compared with the model, and 12 messages per '
+            'schema are round-tripped against the reference codec.',
+            'No shrinking (each candidate is a compiler run); mandatory flags of group members inside an optional component accepted either way; descriptions kept identifier-like and distinct per field.', '4/C13 and 10.9'),
+    'C14': ('E1', 'exploration', 'property-based testing over generated programs (Hypothesis) with hash-collision construction: one count field, two or three definitions, collisions solved over GF(2)',
+            'Schemas in which one repeating-group count field carries different definitions in different messages (disjoint members, an extra member, a nested group against none) and, in about '
+            'half of them, definitions engineered to collide under the compiler\'s structural hash (equality re-computed and asserted in Python); pipeline and oracle as C13: every message must '
+            'get its own definition and round-trip.',
+            'Pure reorderings of the same members are not the generated difference; no shrinking.', '4/C14 and 10.9'),
+    'C27': ('E1', 'fault_enumeration', 'generated store histories (Hypothesis) x exhaustive enumeration of every crash point (completed write/lseek) of each history, model of completed operations as oracle',
+            'For every generated history of message/control stores (any order, message first included) the executor counts the completed write/seek system calls N on the two files and, for '
+            'every k <= N, runs the history in a forked child that dies right after call k; the parent reopens the store, reads everything back, stores further records, reopens and reads '
+            'back again. Completed stores must be intact, the store in flight may be visible or not, nothing else may appear, the control record must be the last completed (or in-flight) one.',
+            'Crash = process death between system calls (no torn writes, no file-system reordering); histories are sampled, crash points per history are exhaustive; unsanitized build (fork cost).', '4/C27 and 10.8'),
 }
 
 
